@@ -281,6 +281,25 @@ def check(run, prog, tier):
                 ub = _upper_bound(atom_of(c, t), lambda e: fld(e, "message_length"))
                 if ub is not None and ub <= SIZE - 2:
                     room = "message_length <= %d" % ub
+            if room is None:
+                # the same fact reached over a join (`if (full) { flush; if (full) break; }`): must-analysis, the fact is made
+                # on an edge whose condition bounds message_length and lost at a store to message_length
+                def tr(blk, st, f=f):
+                    for e in blk.el:
+                        for x in walk(e, True):
+                            if x.get("k") == "Asg" and fld(x["L"], "message_length"):
+                                st = False
+                    return st
+
+                def ed(blk, idx, sid, st, f=f):
+                    c = f.branch_cond(blk)
+                    if c is None or len(blk.succ) < 2:
+                        return st
+                    ub = _upper_bound(atom_of(c, idx == 0), lambda e: fld(e, "message_length"))
+                    return True if (ub is not None and ub <= SIZE - 2) else st
+                ins = solve(f, False, tr, ed, lambda a_, b_: a_ and b_)
+                if ins.get(b.id):
+                    room = "message_length <= %d on every way here" % (SIZE - 2)
             run.ob("C14-f", "mark-after-queue:%s:%d" % (f.name, j), room is not None, "`%s` under `%s`: the two bytes of IAC DM fit, so the byte marked is the DATA MARK" % (show(n)[:50], room) if room else
                    "`%s` (line %s) is not under a test that the ring has room for the reply: when it does not fit, the helper drops it and the mark lands on the last byte of ordinary output, which is then sent as urgent data and missing from the client's stream" % (show(n)[:50], n.get("l")),
                    f.file, n.get("l"), f.name, what="%s marks a byte as the telnet DATA MARK without knowing that the DATA MARK was queued" % f.name)
